@@ -303,6 +303,28 @@ def cert (cfg : Config) (hostname : Bytes) (now : Int) (s : State) : State × Ou
 def certUnpatched (cfg : Config) (hostname : Bytes) (now : Int) (s : State) : State × Outcome :=
   certFor cfg (normalise hostname) now s
 
+/-! #### fault at the signing step
+
+`x509.CreateCertificate(rand.Reader, tmpl, c.ca, c.priv.Public(), c.capriv)` calls `Sign` of the CA key, which
+`NewConfig` accepts as `interface{}`: a remote signer (HSM/KMS) can fail at any call. `signOk` is that call's
+outcome; on failure `cert` returns `nil, err` and nothing is stored. -/
+
+/-- `Config.cert` with the outcome of the signing step as an input. -/
+def certS (cfg : Config) (hostname : Bytes) (now : Int) (signOk : Bool) (s : State) : State × Outcome :=
+  let host := normalise hostname
+  if host.isEmpty then (s, .refused) else
+  match s.cache.lookup host with
+  | some c =>
+    if goVerify c host now then (s, .served c false)
+    else if signOk then issueAndStore cfg host now s else (s, .refused)
+  | none => if signOk then issueAndStore cfg host now s else (s, .refused)
+
+def getCertTLSS (cfg : Config) (sni : Bytes) (now : Int) (signOk : Bool) (s : State) : State × Outcome :=
+  if sni.isEmpty then (s, .refused) else certS cfg sni now signOk s
+
+def getCertForHostS (cfg : Config) (fallback sni : Bytes) (now : Int) (signOk : Bool) (s : State) : State × Outcome :=
+  certS cfg (if sni.isEmpty then fallback else sni) now signOk s
+
 /-- `TLS().GetCertificate`. -/
 def getCertTLS (cfg : Config) (sni : Bytes) (now : Int) (s : State) : State × Outcome :=
   if sni.isEmpty then (s, .refused) else cert cfg sni now s
